@@ -64,9 +64,9 @@ def main():
         ctx.report_broken('check-machinery', 'exception in tools/props/%s.py' % a.pid, tb)
     if tier == 'thorough' and not ctx.violations and os.path.exists(os.path.join(vlib.COQ, 'props', a.pid + '.vo')):
         # independent re-check of the compiled theorems (coqchk) once per thorough run
-        ok, axioms, summary = vlib.coqchk(a.pid)
-        ctx.cov['coqchk'] = dict(ok=ok, axioms=axioms, summary=summary)
-        if not ok:
+        status, axioms, summary = vlib.coqchk(a.pid)
+        ctx.cov['coqchk'] = dict(status=status, axioms=axioms, summary=summary)
+        if status == 'failed':
             ctx.report_broken('proof', 'coqchk props/%s.vo' % a.pid, summary)
     sys.exit(ctx.finish(getattr(mod, 'LEVEL', 'proof')))
 
